@@ -1,6 +1,6 @@
 // Package canon implements the equality the properties state: strict comparison of frames, messages and data
 // types up to the distinctions the wire format cannot carry (nil vs empty collections; IPv4 in 4 or 16 bytes;
-// nil vs empty [short bytes]; a nil *QueryOptions standing for the defaults; PageSizeInBytes without a page size), plus rendering and hashing of cases.
+// nil vs empty [short bytes]; a nil *QueryOptions standing for the defaults), plus rendering and hashing of cases.
 package canon
 
 import (
@@ -73,18 +73,8 @@ func diff(a, b reflect.Value, path, field string) string {
 		}
 		return diff(a.Elem(), b.Elem(), path, field)
 	case reflect.Struct:
-		// QueryOptions: "page size in bytes" qualifies a page size; without one (PageSize 0 = field absent on the wire)
-		// it has nothing to qualify and the encoder cannot carry it
-		noPageSize := a.Type().Name() == "QueryOptions" && a.FieldByName("PageSize").IsValid() &&
-			a.FieldByName("PageSize").Int() == 0 && b.FieldByName("PageSize").Int() == 0
-		// RowsMetadata: likewise "last continuous page" qualifies a continuous page number (numbered from 1)
-		noPageNumber := a.Type().Name() == "RowsMetadata" && a.FieldByName("ContinuousPageNumber").IsValid() &&
-			a.FieldByName("ContinuousPageNumber").Int() == 0 && b.FieldByName("ContinuousPageNumber").Int() == 0
 		for i := 0; i < a.NumField(); i++ {
 			f := a.Type().Field(i)
-			if noPageSize && f.Name == "PageSizeInBytes" || noPageNumber && f.Name == "LastContinuousPage" {
-				continue
-			}
 			if d := diff(a.Field(i), b.Field(i), path+"."+f.Name, f.Name); d != "" {
 				return d
 			}
